@@ -52,6 +52,18 @@ var (
 
 func SeqOf(e *Sort) *Sort    { return &Sort{Kind: KSeq, Elem: e} }
 func ArrOf(e *Sort) *Sort    { return &Sort{Kind: KArr, Elem: e} }
+// MemberAxioms: the trigger-friendly definition of the membership predicate seq.in.<S> used by the spec
+// function member(e, s); added to a script only when it mentions the predicate.
+func MemberAxioms() map[string]string {
+	out := map[string]string{}
+	for _, srt := range []string{"Int", "Str", "Any"} {
+		p := "seq.in." + srt
+		out[p] = fmt.Sprintf("(assert (forall ((q!s (GSeq %[1]s)) (q!e %[1]s)) (! (=> (%[2]s q!s q!e) (exists ((q!k Int)) (and (<= 0 q!k) (< q!k (seq.len q!s)) (= (select (seq.el q!s) q!k) q!e)))) :pattern ((%[2]s q!s q!e)))))\n"+
+			"(assert (forall ((q!s (GSeq %[1]s)) (q!k Int)) (! (=> (and (<= 0 q!k) (< q!k (seq.len q!s))) (%[2]s q!s (select (seq.el q!s) q!k))) :pattern ((select (seq.el q!s) q!k)))))\n", srt, p)
+	}
+	return out
+}
+
 func MapOf(k, v *Sort) *Sort { return &Sort{Kind: KMap, Key: k, Elem: v} }
 
 // ArrKV: an SMT array with an arbitrary index sort (ghost relations)
@@ -383,6 +395,9 @@ func Prelude() string {
 (define-fun acat ((a Atom) (b Atom)) Atom (ite (= a a.empty) b (ite (= b a.empty) a (a.cat a b))))
 (declare-fun tail.cat (Str Str) Tail)
 (declare-fun tail.arr (Tail) (Array Int Str))
+(declare-fun seq.in.Int ((GSeq Int) Int) Bool)
+(declare-fun seq.in.Str ((GSeq Str) Str) Bool)
+(declare-fun seq.in.Any ((GSeq Any) Any) Bool)
 (declare-fun m.Log (Real) Real)
 (declare-fun m.Tan (Real) Real)
 (declare-fun m.Cos (Real) Real)
